@@ -897,12 +897,10 @@ theorem pre_sendCall {s : S} (h : Pre s) (a : Nat) (t g f : Option Nat) : Pre (s
       simp only [List.getElem?_append] at hq
       split at hq
       · exact h.pre q c hq
-      · cases hq' : ([({ callee := a, deadline := Option.map (fun x => x + s.now) t, loc := Loc.mailbox a, res := none, group := g, forward := f, rx := s.calls.length } : Call)])[q - s.calls.length]? with
-        | none => rw [hq'] at hq; cases hq
-        | some c' =>
-          rw [hq'] at hq; cases hq
-          have : c = _ := (List.mem_singleton.mp (List.mem_of_getElem? hq'))
-          subst this; rfl
+      · have hmem := List.mem_of_getElem? hq
+        simp only [List.mem_singleton] at hmem
+        subst hmem
+        rfl
     · intro q c hq
       simp only [List.getElem?_append] at hq
       have hal : ∀ b : Nat, ((s.actors.modify a (fun x => { x with mailbox := x.mailbox ++ [Item.call s.calls.length] }))[b]?).map (·.alive)
@@ -914,13 +912,10 @@ theorem pre_sendCall {s : S} (h : Pre s) (a : Nat) (t g f : Option Nat) : Pre (s
         | some y => by_cases hab : a = b <;> simp [hab]
       split at hq
       · exact locOk_congr hal (h.loc q c hq)
-      · cases hq' : ([({ callee := a, deadline := Option.map (fun x => x + s.now) t, loc := Loc.mailbox a, res := none, group := g, forward := f, rx := s.calls.length } : Call)])[q - s.calls.length]? with
-        | none => rw [hq'] at hq; cases hq
-        | some c' =>
-          rw [hq'] at hq; cases hq
-          have : c = _ := (List.mem_singleton.mp (List.mem_of_getElem? hq'))
-          subst this
-          simp [locOk, List.getElem?_modify_eq, hax, Functor.map, hxalive]
+      · have hmem := List.mem_of_getElem? hq
+        simp only [List.mem_singleton] at hmem
+        subst hmem
+        simp [locOk, List.getElem?_modify_eq, hax, Functor.map, hxalive]
     · intro b y hy q hqm
       rw [List.getElem?_modify] at hy
       cases hb : s.actors[b]? with
@@ -936,9 +931,7 @@ theorem pre_sendCall {s : S} (h : Pre s) (a : Nat) (t g f : Option Nat) : Pre (s
           · obtain ⟨c0, hc0, hl0⟩ := h.mb a y0 hb q hqm
             exact ⟨c0, by rw [List.getElem?_append_left (hlt q c0 hc0)]; exact hc0, hl0⟩
           · cases hqm
-            refine ⟨{ callee := a, deadline := Option.map (fun x => x + s.now) t, loc := Loc.mailbox a,
-                      res := none, group := g, forward := f, rx := s.calls.length }, ?_, rfl⟩
-            rw [List.getElem?_append_right (Nat.le_refl _)]; simp
+            exact ⟨_, by rw [List.getElem?_append_right (Nat.le_refl _), Nat.sub_self]; rfl, rfl⟩
         · simp only [hab, if_false] at hy; subst hy
           obtain ⟨c0, hc0, hl0⟩ := h.mb b y0 hb q hqm
           exact ⟨c0, by rw [List.getElem?_append_left (hlt q c0 hc0)]; exact hc0, hl0⟩
@@ -974,22 +967,18 @@ theorem pre_sendCall {s : S} (h : Pre s) (a : Nat) (t g f : Option Nat) : Pre (s
       simp only [List.getElem?_append] at hq
       split at hq
       · exact h.pre q c hq
-      · cases hq' : ([({ callee := a, deadline := Option.map (fun x => x + s.now) t, loc := Loc.dropped, res := some Res.sendErr, group := g, forward := f, rx := s.calls.length } : Call)])[q - s.calls.length]? with
-        | none => rw [hq'] at hq; cases hq
-        | some c' =>
-          rw [hq'] at hq; cases hq
-          have : c = _ := (List.mem_singleton.mp (List.mem_of_getElem? hq'))
-          subst this; rfl
+      · have hmem := List.mem_of_getElem? hq
+        simp only [List.mem_singleton] at hmem
+        subst hmem
+        rfl
     · intro q c hq
       simp only [List.getElem?_append] at hq
       split at hq
       · exact h.loc q c hq
-      · cases hq' : ([({ callee := a, deadline := Option.map (fun x => x + s.now) t, loc := Loc.dropped, res := some Res.sendErr, group := g, forward := f, rx := s.calls.length } : Call)])[q - s.calls.length]? with
-        | none => rw [hq'] at hq; cases hq
-        | some c' =>
-          rw [hq'] at hq; cases hq
-          have : c = _ := (List.mem_singleton.mp (List.mem_of_getElem? hq'))
-          subst this; rfl
+      · have hmem := List.mem_of_getElem? hq
+        simp only [List.mem_singleton] at hmem
+        subst hmem
+        rfl
     · intro b y hy q hqm
       obtain ⟨c0, hc0, hl0⟩ := hm b y hy q hqm
       exact ⟨c0, by rw [List.getElem?_append_left (hlt q c0 hc0)]; exact hc0, hl0⟩
@@ -1985,12 +1974,24 @@ theorem newFwdFrom_congr (acc : Nat → Bool) (g g' : Call → Call) : ∀ (l : 
     simp only [newFwdFrom]
     rw [h b (List.mem_cons_self), ih (off + 1) (fun c hc => h c (List.mem_cons_of_mem _ hc))]
 
+theorem writeFrom_congr (g g' : Call → Call) : ∀ (l : List Call) (M : List (List (Option Res))),
+    (∀ c ∈ l, g c = g' c) → writeFrom g M l = writeFrom g' M l := by
+  intro l
+  induction l with
+  | nil => intro _ _; rfl
+  | cons b rest ih =>
+    intro M h
+    simp only [writeFrom]
+    rw [h b (List.mem_cons_self), ih _ (fun c hc => h c (List.mem_cons_of_mem _ hc))]
+
 theorem resolve_eq_local {s : S} (h : Wire s) : resolve s = resolveLocal s := by
   have : s.calls.map (resolveVia s.now s.calls) = s.calls.map (resolveCall s.now) :=
     List.map_congr_left (fun c hc => resolveVia_eq h c hc)
   have h2 := newFwdFrom_congr (acceptingIn s.actors) (resolveVia s.now s.calls) (resolveCall s.now) s.calls 0
     (fun c hc => resolveVia_eq h c hc)
-  simp only [resolve, resolveLocal, this, h2]
+  have h3 := writeFrom_congr (resolveVia s.now s.calls) (resolveCall s.now) s.calls s.mresults
+    (fun c hc => resolveVia_eq h c hc)
+  simp only [resolve, resolveLocal, this, h2, h3]
 
 theorem step_eq_local {s : S} (hp : Pre s) (hw : Wire s) (op : Op) :
     step s op = resolveLocal (drainExits (stepCore s op)) :=
